@@ -74,6 +74,10 @@ func TestC15(t *testing.T) {
 				if k%4 == 0 {
 					whiteboxConcurrent(c, rand.New(rand.NewPCG(uint64(c.Seed)+16, uint64(k))), k)
 				}
+
+				if k%8 == 1 {
+					whiteboxTeardownRaces(c, rand.New(rand.NewPCG(uint64(c.Seed)+17, uint64(k))), k)
+				}
 			}()
 		}
 
